@@ -65,19 +65,19 @@ def gen_cases(rng, tier):
         yield loop.gen_spec(rng, tier)
     # synchronous schedulers run long enough for their first bracket to hand out jobs of its higher rungs, with the
     # non-default DEHB option under which every job is a new trial (nothing is ever resumed)
-    for _ in range(8 if tier == "quick" else 120):
+    for j in range(8 if tier == "quick" else 120):
         while True:
             spec = loop.gen_spec(rng, tier)
             if spec["backend"] == "script":
                 break
-        k = rng.choice(["dehb", "dehb", "sync"])
+        k = "dehb" if j < 3 else rng.choice(["dehb", "dehb", "sync"])
         spec["scheduler"] = {"kind": k, "modes": rng.choice(["min", "max"]), "reduction_factor": rng.choice([2, 3]),
                              "brackets": rng.choice([None, 1, 2]), "max_resource_attr": rng.random() < 0.4}
-        if k == "dehb" and rng.random() < 0.6:
+        if k == "dehb" and (j < 3 or rng.random() < 0.6):
             spec["scheduler"]["support_pause_resume"] = False
-        spec["max_t"] = rng.choice([4, 9])
+        spec["max_t"] = 4 if spec["scheduler"]["reduction_factor"] == 2 else 9   # rungs of 4/2/1 or 9/3/1 jobs
         spec["n_workers"] = rng.randint(2, 4)
-        spec["criterion"] = {"max_num_trials_started": rng.randint(14, 24)}
+        spec["criterion"] = {"max_num_trials_started": rng.randint(24, 40)}
         spec["inject"] = None
         bp = spec.get("backend_params") or {}
         bp.update({"p_fail": 0.0, "p_extstop": 0.0, "short_runs": None})
